@@ -166,6 +166,10 @@ pub struct StepOut {
     pub released_serials: Vec<(usize, u32)>,
     /// human-readable notes (which clause produced what)
     pub notes: Vec<String>,
+    /// teardown of everything at once: the order in which the broker removes connections is
+    /// free, so which teardown notifications a connection still sees before its own Shutdown
+    /// is too; only the required messages must be present
+    pub unordered_teardown: bool,
 }
 
 #[derive(Debug, Clone)]
@@ -464,6 +468,7 @@ impl Model {
                 }
                 out.closed.extend(scratch.closed);
                 out.released_serials.extend(scratch.released_serials);
+                out.unordered_teardown = true;
                 // notifications caused by the teardown itself may or may not be seen by peers
                 // that are being shut down in the same step
                 for mut e in scratch.exp {
